@@ -8,6 +8,7 @@ Rules enforced here (DESIGN.md 2.1):
   * digests are over canonical JSON only.
 """
 import hashlib
+import inspect
 import json
 import os
 import pickle
@@ -124,6 +125,7 @@ class Ctx:
         self.sig = None         # history signature (string) for distinct counting
         self.notes = {}
         self.freshen = True     # see call()
+        self.callstyle = "as-written"   # or "positional": keyword arguments are passed by position where the signature allows
         self.cleanups = []      # callables run after the scenario, whatever its outcome (e.g. StepGate.abandon)
         self.in_step = False    # True while the harness thread operates inside a parked timestep (simkit.stepgate)
 
@@ -162,6 +164,8 @@ class Ctx:
         if self.freshen:
             a = tuple(fresh(x) for x in a)
             k = {n: fresh(x) for n, x in k.items()}
+        if k and self.callstyle == "positional":
+            a, k = positional(fn, a, k)
         try:
             return ("ok", fn(*a, **k))
         except (RunTimeout, Violation, HarnessError):
@@ -186,6 +190,25 @@ class Ctx:
 
     def digest(self):
         return self._h.hexdigest()[:16]
+
+
+def positional(fn, a, k):
+    """The same call with its keyword arguments moved into positional slots as far as the callee's signature allows (a
+    caller is free to write execute_systems(True) for execute_systems(throw_error=True)); anything unclear stays as it is."""
+    try:
+        params = list(inspect.signature(fn).parameters.values())
+    except (TypeError, ValueError):
+        return a, k
+    a, k = list(a), dict(k)
+    for i, p in enumerate(params):
+        if p.kind is not inspect.Parameter.POSITIONAL_OR_KEYWORD:
+            break
+        if i < len(a):
+            continue
+        if p.name not in k:
+            break
+        a.append(k.pop(p.name))
+    return tuple(a), k
 
 
 def fresh(x):
@@ -244,6 +267,9 @@ def execute(mod, scenario, keep_trace=False):
     np = sys.modules.get("numpy")
     if np is not None:
         np.random.seed(20260927)
+    if isinstance(scenario, dict) and scenario.get("callstyle") == "positional":
+        ctx.callstyle = "positional"
+        ctx.probe("keyword_arguments_passed_by_position")
     try:
         try:
             mod.execute(scenario, ctx)
@@ -345,6 +371,9 @@ def run_one(mod, scenario, keep_trace=False):
 def generate(mod, verif_seed, index, tier):
     rng = random.Random(run_seed(verif_seed, mod.PROPERTY, index))
     sc = mod.generate(rng, tier)
+    if isinstance(sc, dict) and "callstyle" not in sc:
+        # harness-level dimension, drawn from a stream of its own: how the harness spells its calls (see Ctx.call)
+        sc["callstyle"] = "positional" if random.Random(run_seed(verif_seed, mod.PROPERTY + "/callstyle", index)).random() < 0.3 else "as-written"
     # round-trip through canonical JSON: what is executed is exactly what a replay file holds
     return json.loads(canon(sc))
 
